@@ -20,13 +20,17 @@ static J issuesOf(const ValidatorPtr &v)
 static void validate(const J &sc, Emitter &out)
 {
     Built b = buildModel(sc["am"]);
+    bool preApplied = true;
+    if (sc["inj"]["pre"].k == J::OBJ) { // a preparation that keeps the model valid (checked by the base validation below)
+        preApplied = mutate(b, sc["inj"]["pre"]);
+    }
     auto v = Validator::create();
     v->validateModel(b.model);
     J ev = J::obj();
     ev.set("e", "inject").set("fv", sc["fv"]).set("inj", sc["inj"]);
     ev.set("baseIssues", issuesOf(v));
     bool applied = sc["inj"]["mut"].k == J::OBJ ? mutate(b, sc["inj"]["mut"]) : true;
-    ev.set("applied", J(applied));
+    ev.set("applied", J(applied && preApplied));
     auto v2 = Validator::create();
     v2->validateModel(b.model);
     ev.set("issues", issuesOf(v2)).set("log", loggerObs(v2));
